@@ -930,6 +930,9 @@ def run_case(case, ctx):
     rs.shuffle(cand)
     cand.sort(key=lambda of: (not (not of[1][1] and not of[1][2]), -min(len(of[0][1]["members"]), 3)))
     chosen = cand[:1] + rs.sample(cand[1:], min(len(cand) - 1, case["nsecond"] - 1)) if cand else []
+    empties = [(o, f) for o, f in firsts if not o[1]["members"]]
+    if empties and rs.random() < 0.3:      # an empty but bounded result is a collection too
+        chosen.append(rs.choice(empties))
     for (r1, M1), _ in chosen:
         r2 = rand_ranges(rs, M1["members"], (M1["start"], M1["end"]), case["nr2"])
         fl = [FLAGS[i] for i in rs.sample(range(8), 4)]
